@@ -288,8 +288,9 @@ Section MeshModel.
                                          [Z.to_N (new_addr mod 256); Z.to_N (new_addr / 256)])) ;;;
         n <- nget ;;
         if negb (from_node (fb_hdr n) =? NET_DEFAULT) then
-          r <- write_ B FUEL (to_node (fb_hdr n)) S_NORMAL ;;
-          if negb r then n <- nget ;; write_ B FUEL (to_node (fb_hdr n)) S_NORMAL ;;; nret tt else nret tt
+          let response := n_fb n in          (* frame_buf.pack() ... frame_buf.unpack(response) *)
+          r <- write_ B FUEL via S_NORMAL ;;
+          if negb r then nmod (fun n => set_fb n response) ;;; write_ B FUEL via S_NORMAL ;;; nret tt else nret tt
         else
           write_ B FUEL (to_node (fb_hdr n)) S_PHYSICAL ;;; nret tt
     end.
